@@ -258,8 +258,9 @@ def make_case(seed, cid, quick=True, family=None, dim=None, topo=None, widenings
             for _ in range(2):
                 i = fresh(); L.append("mk %d %s %d %d" % (i, r.choice(ROUTES), a, r.randrange(1 << 20))); ra.append(i)
                 i = fresh(); L.append("mk %d %s %d %d" % (i, r.choice(ROUTES), x, r.randrange(1 << 20))); rb.append(i)
+            pairs = [(ra[0], rb[0]), (ra[1], rb[1]), (ra[2], rb[r.choice([0, 2])])]
             res = []
-            for (ia, ib) in [(ra[0], rb[0]), (ra[1], rb[1]), (ra[2], rb[r.choice([0, 2])])]:
+            for (ia, ib) in pairs:
                 i = fresh(); L.append("widen %s %d %d %d -1" % (w, i, ia, ib)); res.append(i)
             r0 = res[0]
             L.append("#! same %d %d" % (r0, res[1])); L.append("#! same %d %d" % (r0, res[2]))
@@ -268,18 +269,20 @@ def make_case(seed, cid, quick=True, family=None, dim=None, topo=None, widenings
             L.append("cmp %d %d" % (x, r0))
             if r.random() < 0.3: L.append("cmp %d %d" % (r0, x))
             L.append("#! step %s %d %d" % (w, x, r0))
+            # the variants are judged against the plain widening of the SAME representation pair
             if r.random() < p_extra:
-                # tokens
-                for (t, ia, ib) in [(1, ra[0], rb[0]), (r.choice([2, 3]), ra[1], rb[1]), (0, ra[2], rb[0])]:
-                    i = fresh(); L.append("widen %s %d %d %d %d plain %d" % (w, i, ia, ib, t, r0))
+                for (t, pi) in [(1, 0), (r.choice([2, 3]), 1), (0, 2)]:
+                    i = fresh(); L.append("widen %s %d %d %d %d plain %d" % (w, i, pairs[pi][0], pairs[pi][1], t, res[pi]))
             if r.random() < p_extra:
                 cs = limit_cons(r, dim, topo, ch)
-                i = fresh(); L.append("lim %s limited %d %d %d -1 %s plain %d" % (w, i, ra[0], rb[0], fmt_cons(cs), r0))
-                j = fresh(); L.append("lim %s limited %d %d %d -1 %s plain %d" % (w, j, ra[1], rb[1], fmt_cons(cs), r0))
+                i = fresh(); L.append("lim %s limited %d %d %d -1 %s plain %d" % (w, i, pairs[0][0], pairs[0][1], fmt_cons(cs), res[0]))
+                j = fresh(); L.append("lim %s limited %d %d %d -1 %s plain %d" % (w, j, pairs[1][0], pairs[1][1], fmt_cons(cs), res[1]))
                 L.append("#! same %d %d" % (i, j))
-                i = fresh(); L.append("lim %s bounded %d %d %d -1 %s plain %d" % (w, i, ra[r.choice([0, 2])], rb[0], fmt_cons(cs), r0))
+                pi = r.choice([0, 2])
+                i = fresh(); L.append("lim %s bounded %d %d %d -1 %s plain %d" % (w, i, pairs[pi][0], pairs[pi][1], fmt_cons(cs), res[pi]))
                 if r.random() < 0.5:
-                    i = fresh(); L.append("lim %s %s %d %d %d %d %s plain %d" % (w, r.choice(["limited", "bounded"]), i, ra[0], rb[0], r.choice([0, 1, 2]), fmt_cons(cs), r0))
+                    pi = r.choice([0, 1, 2])
+                    i = fresh(); L.append("lim %s %s %d %d %d %d %s plain %d" % (w, r.choice(["limited", "bounded"]), i, pairs[pi][0], pairs[pi][1], r.choice([0, 1, 2]), fmt_cons(cs), res[pi]))
             X[w] = r0; iterates[w].append(r0)
     # the multiset ordering on the certificates met along the way
     allit = sorted(set(i for w in widenings for i in iterates[w]))
